@@ -8,7 +8,7 @@
    row_top / row_bottom), Box/TableGridSpec.v. *)
 From Verif Require Import Base.F32 Base.GoSem Box.TableGrid Box.TableGridSpec Box.TableGridProofs
   Box.TableGridPlain Box.TableGridPlainProofs Layout.TableGeom Layout.TableGeomSpec Layout.TableGeomProofs
-  Layout.TableGeomAuto Layout.TableGeomAutoProofs.
+  Layout.TableGeomAuto Layout.TableGeomAutoProofs Layout.TableAutoContract.
 From Coq Require Import QArith List ZArith Permutation.
 Import ListNotations.
 Open Scope Q_scope.
@@ -347,6 +347,30 @@ Proof.
     unfold Qminus. rewrite Qplus_0_r. apply Qle_refl.
 Qed.
 Print Assumptions C13_auto_layout_contract_partial.
+
+(* further part, for the MODEL of autoTableLayout adapted to the signature of
+   the contract (Layout/TableAutoContract.v, model_auto_layout: every column
+   unconstrained, without percentage, a cell in each; table min- / max-content
+   width = sum of the columns' + (n+1) * bsx).  Class covered: every input
+   with at least one column and as many max- as min-content widths, no sign
+   hypothesis.  Proved: one width per column, the columns plus the spacing
+   exactly fill the used width, a specified width is kept (the refutation
+   above needs constrained columns only).  NOT proved: the non negativity
+   conjunct (forallb (Qle_bool 0) widths) of auto_contract. *)
+Theorem C13_auto_layout_contract_partial2 : forall avail spec has bsx mins maxs,
+  mins <> [] -> length mins = length maxs ->
+  let '(table_w, widths) := model_auto_layout avail spec has bsx mins maxs in
+  length widths = length mins /\
+  sumQ widths + inject_Z (Z.of_nat (S (length widths))) * bsx == table_w /\
+  (has = true -> spec <= table_w).
+Proof. exact model_auto_layout_contract_partial. Qed.
+Print Assumptions C13_auto_layout_contract_partial2.
+
+(* the hypotheses are inhabited, and on this input the whole contract holds *)
+Example C13_example_auto_contract :
+  model_auto_layout 300 200 true 2 [10; 20] [100; 60] = (200, [234 # 2; 154 # 2]) /\
+  auto_contract 0 200 200 2 true [234 # 2; 154 # 2] = true.
+Proof. exact model_auto_layout_example_specified. Qed.
 
 (* the hypotheses are inhabited *)
 Example C13_example_fixed :
